@@ -23,10 +23,14 @@ inductive Val where
 /-- the variable store: `var name indices` is `Memory.view_or_create_variable` (the name is what
     `read_name` returns: upper-cased, at most 40 characters plus an optional sigil; completing it with
     the default sigil is the store's business), `ptr b` is `Memory.get_value_for_varptrstr` on the
-    three bytes following `=` / `X` when the first of them is ≤ 8 -/
+    three bytes following `=` / `X` when the first of them is ≤ 8; `volumeCmd` is not part of the
+    store: it is the one syntax option the PLAY command parser looks at -/
 structure Env where
   var : Bytes → List Int → R Val
   ptr : Bytes → R Val
+  /-- syntax option seen by the PLAY parser: the `V` (volume) command is accepted
+      (`self._multivoice and self._sound_on or self._multivoice == 'tandy'`) -/
+  volumeCmd : Bool := false
 
 def isDigit (c : Nat) : Bool := decide (48 ≤ c) && decide (c ≤ 57)
 def isUpper (c : Nat) : Bool := decide (65 ≤ c) && decide (c ≤ 90)
